@@ -70,6 +70,17 @@ func (x *Exec) step(st *State, in ssa.Instruction) {
 	case *ssa.UnOp:
 		x.unop(st, i)
 	case *ssa.Store:
+		if ap, isArr := x.val(st, i.Addr).(ArrElemPtr); isArr {
+			et := deref(i.Addr.Type())
+			arr := x.loadPtr(st, ap.Arr, ap.At).(ArrayV)
+			na := ArrayV{L: map[string]*Term{}, N: arr.N}
+			ts := x.flatten(x.val(st, i.Val), et)
+			for k, l := range leavesOf(et) {
+				na.L[l.suffix] = c.Store(arr.L[l.suffix], ap.Idx, ts[k])
+			}
+			x.storePtr(st, ap.Arr, ap.At, na)
+			return
+		}
 		p, ok := x.val(st, i.Addr).(PtrV)
 		if !ok {
 			panic(unsupported("store through %T", x.val(st, i.Addr)))
